@@ -17,8 +17,9 @@ EXPLANATION = ("Final values, option values, bounds inside !condition expression
                "raised, z3 must prove the strict reading fails and the error is the constraint's own message. Strict/tolerant split: acceptance is demanded only where the strict "
                "predicate holds, rejection only where the tolerant one fails, so the documented 1e-6 tolerance band itself is never judged.")
 ASSUMPTIONS = dipkit.DIP_STUB_TEXT + [
+    "a division by a term that may be zero forks; on the zero side the library's own ZeroDivisionError propagates and is reported (no denominator is assumed away)",
     "name `int` in dip.nodes.parser is symx.Int so that the bounds of an array dimension [lo:hi] can be solver integers",
-    "tolerant reading: |a-b| <= 1e-5*(1+|a|+|b|) (wider than the library's 1e-8 + 1e-6|b|); strict reading: exact comparison after unit conversion",
+    "tolerant reading: |a-b| <= 1e-5*(1+|a|+|b|) (wider than the library's 1e-6|b|); strict reading: exact comparison after unit conversion",
     "format expressions and string options are concrete (regex engine is C-level)",
 ]
 OUTSIDE = ['values inside the tolerance band (neither demanded accepted nor rejected)', 'conditions on array-valued nodes', 'option lists given by reference']
